@@ -32,7 +32,7 @@ BAD = ['K', 'm', 'Hz', 'g']
 LEGACY = {'mJy': 'MJY', 'cgs': 'ergs/cm^2/s'}      # legacy spellings in sed/helpers.py UNIT_MAPPING
 REQUIRED_BRANCHES = (['%s->%s' % (a, b) for a in ('fnu', 'flux', 'lum') for b in ('fnu', 'flux', 'lum')] +
                      ['refused', 'order_nu', 'order_wav', 'apertures_1', 'apertures_5', 'wav_increasing',
-                      'wav_decreasing', 'read_options_nondefault', 'read_call_positional', 'read_call_keyword',
+                      'wav_decreasing', 'distance_next_to_1kpc', 'f4_faint_flux_density', 'read_options_nondefault', 'read_call_positional', 'read_call_keyword',
                       'file_rewritten_between_reads', 'all_zero_err', 'all_zero_flux', 'all_zero_both', 'refused_all_zero', 'sed_from_wav_and_nu', 'sed_from_nu_only', 'sed_from_wav_only', 'no_distance_keyword',
                       'gz_without_ext', 'gz_with_ext', 'sequential_read', 'sequential_same_ends_other_interior', 'dtype_f4', 'dtype_f8', 'f4_large_luminosity', 'nu_unit_Hz', 'nu_unit_kHz', 'nu_unit_GHz',
                       'nu_unit_THz', 'wav_unit_micron', 'wav_unit_other', 'legacy_units', 'legacy_MJY', 'legacy_ergs', 'err_unit_same', 'err_unit_same_family', 'err_unit_cross_family'] + ['pair_%s_%s' % (a, b) for a in KEYS for b in KEYS])
@@ -48,7 +48,7 @@ ASSUMPTIONS = ['IEEE rounding is not modelled: values compared within 1e-9 relat
                'the public API: the SED.flux / SED.error setters validate the physical type, so such a file cannot be '
                'written with SED.write; only the target-side refusal is exercised (C15_refuse covers both in the model)']
 EXHAUSTIVE = {'quick': True, 'thorough': True}   # all 5 x 5 unit pairs are enumerated in both tiers
-N = {'quick': 375, 'thorough': 24000}
+N = {'quick': 385, 'thorough': 12000}
 DIST_UNITS = ['kpc', 'pc', 'cm', 'lyr']
 
 
@@ -66,7 +66,7 @@ WAV_UNITS = ['micron', 'nm', 'AA', 'cm', 'mm', 'm']
 
 
 def gen_case(rng, stored=None, requested=None, nap=None, order=None, wdir=None, stored_err=None, legacy=None,
-             dtype=None, big_lum=None, nu_unit=None, wav_unit=None, n_extra=None, gz=None, axes=None, no_distance=None, zeros=None):
+             dtype=None, big_lum=None, nu_unit=None, wav_unit=None, n_extra=None, gz=None, axes=None, no_distance=None, zeros=None, near_kpc=None, faint=None):
     free_request = requested is None
     stored = stored or rng.choice(KEYS)
     # the error column carries its own unit in the file; SED validates / writes / reads the two separately
@@ -81,6 +81,12 @@ def gen_case(rng, stored=None, requested=None, nap=None, order=None, wdir=None, 
     dunit = rng.choice(DIST_UNITS)
     dist = {'kpc': nice(rng, 1e-3, 1e5, 3), 'pc': nice(rng, 1., 1e7, 3), 'cm': nice(rng, 1e15, 1e26, 3),
             'lyr': nice(rng, 1., 1e8, 3)}[dunit]
+    if near_kpc is None:
+        near_kpc = rng.random() < 0.08
+    if near_kpc:
+        # distances next to (but not equal to) the reader's 1 kpc default, and exactly 1 kpc
+        dunit, dist = rng.choice([('kpc', 1.000001), ('kpc', 0.999999), ('kpc', 1.00001), ('kpc', 0.99999), ('kpc', 1.),
+                                  ('cm', 3.0857e21), ('pc', 1000.01), ('pc', 999.99), ('kpc', 1.0001), ('kpc', 0.9999)])
     def level_of(key):
         return {'mJy': nice(rng, 1e-4, 1e5, 2), 'Jy': nice(rng, 1e-7, 1e2, 2), 'cgs': nice(rng, 1e-16, 1e-6, 2),
                 'SI': nice(rng, 1e-19, 1e-9, 2), 'lum': nice(rng, 1e28, 1e38, 2)}[key]
@@ -90,6 +96,11 @@ def gen_case(rng, stored=None, requested=None, nap=None, order=None, wdir=None, 
     if big_lum:
         requested = 'lum'
     level = level_of(stored)
+    if faint is None:
+        faint = dtype == 'f4' and FAMILY[stored] == 'fnu' and rng.random() < 0.25
+    if faint:
+        # very faint flux densities held in single precision (1e-13 ... 1e-17 mJy: fine for float32, but 1e-39 ... 1e-43 in cgs)
+        level = nice(rng, 1e-17, 1e-13, 2) * (1. if stored == 'mJy' else 1e-3)
     if dtype == 'f4' and stored == 'lum':
         level = min(level, 1e36)           # single precision ends at 3.4e38
     flux = [[float('%.4g' % (level * rng.uniform(0.1, 10.))) for _ in wav] for _ in range(nap)]
@@ -160,7 +171,7 @@ def gen_case(rng, stored=None, requested=None, nap=None, order=None, wdir=None, 
                 gz=(rng.choice([None, None, None, 'without_ext', 'with_ext']) if gz is None else (gz or None)),
                 read_opts=(dict(unit_wav=rng.choice(['micron', 'nm', 'AA', 'mm']), unit_freq=rng.choice(['Hz', 'GHz', 'THz']),
                                 positional=bool(rng.random() < 0.5)) if rng.random() < 0.4 else None),
-                zeros=zeros, axes=axes, no_distance=bool(rng.random() < 0.1 if no_distance is None else no_distance),
+                near_kpc=bool(near_kpc), faint=bool(faint), zeros=zeros, axes=axes, no_distance=bool(rng.random() < 0.1 if no_distance is None else no_distance),
                 nu_unit=nu_unit, wav_unit=wav_unit)
 
 
@@ -208,6 +219,20 @@ def gen_cases(seed, tier):
             yield gen_case(rng, stored=a, stored_err=a, requested=b, nu_unit=nuu, wav_unit=WAV_UNITS[(i + k) % 6],
                            legacy=bool(i % 2))
             i += 1
+    # distances within 1e-6 ... 1e-4 of 1 kpc (and exactly 1 kpc), luminosity requests / stored luminosities
+    for k, (du, dv) in enumerate((('kpc', 1.000001), ('kpc', 0.999999), ('kpc', 1.00001), ('kpc', 0.99999), ('cm', 3.0857e21),
+                                  ('kpc', 1.))):
+        rng = case_rng(seed, PID, i)
+        a, b = [('mJy', 'lum'), ('lum', 'cgs'), ('cgs', 'lum'), ('lum', 'Jy')][k % 4]
+        c = gen_case(rng, stored=a, stored_err=a, requested=b, near_kpc=False, dtype='f8', no_distance=False, zeros=False)
+        c['distance'], c['distance_unit'], c['near_kpc'] = dv, du, True
+        yield c
+        i += 1
+    # very faint flux densities in single-precision columns, converted across the F_nu boundary
+    for k, (a, b) in enumerate((('mJy', 'cgs'), ('Jy', 'lum'), ('mJy', 'SI'), ('mJy', 'Jy'))):
+        rng = case_rng(seed, PID, i)
+        yield gen_case(rng, stored=a, stored_err=a, requested=b, dtype='f4', faint=True, zeros=False, big_lum=False)
+        i += 1
     # all-zero error column / flux / both, for supported requests of every family and for a refusal
     for k, (a, b, z) in enumerate((('mJy', 'cgs', 'err'), ('cgs', 'Jy', 'err'), ('lum', 'mJy', 'err'), ('Jy', 'lum', 'flux'),
                                    ('SI', 'mJy', 'both'), ('mJy', 'K', 'both'), ('cgs', 'm', 'err'), ('mJy', 'Jy', 'err'))):
@@ -439,6 +464,10 @@ def run_case(case):
             return CaseResult(False, violates=True, branches=sorted(branches),
                               detail='SED.read attaches distance %r cm, the file says %r cm%s'
                               % (got_d, d_cm, ' (no DISTANCE keyword: 1 kpc)' if case.get('no_distance') else ''))
+        if case.get('near_kpc'):
+            branches.add('distance_next_to_1kpc')
+        if case.get('faint') and case.get('dtype') == 'f4':
+            branches.add('f4_faint_flux_density')
         if case.get('zeros'):
             branches.add('all_zero_' + case['zeros'])
         if case.get('gz'):
